@@ -59,7 +59,15 @@ class InjectedBaseException(BaseException):
         self.site, self.idx = site, idx
 
 
-FAULT_KINDS = {True: InjectedFault, "plain": InjectedFault, "attr": InjectedAttributeError, "key": InjectedKeyError,
+class InjectedUnhashable(ValueError):
+    """An ordinary exception whose args are not hashable (`raise ValueError("bad readings", [3, 4])`)."""
+
+    def __init__(self, site, idx):
+        super().__init__(f"injected ValueError at {site}#{idx}", [site, idx])
+        self.site, self.idx = site, idx
+
+
+FAULT_KINDS = {"unhashable": InjectedUnhashable, True: InjectedFault, "plain": InjectedFault, "attr": InjectedAttributeError, "key": InjectedKeyError,
                "base": InjectedBaseException}
 
 
